@@ -63,7 +63,7 @@ def hook(g, rng):
 
 def run(ctx):
     from . import inline_oracle
-    out = P.run_sheets(ctx, 2, FEATURES, 120, 3000, depth=3, all_opts=False, wild=False, nontrivial=nontrivial, gen_hook=hook, max_sels=1000)
+    out = P.run_sheets(ctx, 2, FEATURES, 120, 3000, depth=3, all_opts=False, wild=False, nontrivial=nontrivial, gen_hook=hook, max_sels=450)
     # nested rules that come out of mixins (called in rules, at the top level, through namespaces, defined inside other mixins) must combine
     # with the selector at the call site exactly like the same rules written there; one program in four follows a rejected compilation
     n = (60 if ctx['tier'] == 'quick' else 1500) * ctx.get('mult', 1)
